@@ -6,6 +6,7 @@ import (
 	"errors"
 
 	"slices"
+	"sync"
 
 	"fmt"
 
@@ -249,5 +250,51 @@ func T10() {
 	vrt.Assert("deadline non-nil", context.DeadlineExceeded != nil)
 	vrt.Assert("distinct", context.Canceled != context.DeadlineExceeded)
 	vrt.Assert("is", errors.Is(fmt.Errorf("wrap: %w", context.Canceled), context.Canceled))
+	vrt.Reach("end")
+}
+
+// T11/T12: interference at lock boundaries. A counter that checks and acts in ONE critical section never exceeds its
+// limit however another thread's increment is scheduled (T11: no violation); one that checks in one critical section and
+// acts in a second one does (T12: violation "limit", found through the choice variable at the second Lock).
+type t11Counter struct {
+	mu    sync.Mutex
+	n     int
+	limit int
+}
+
+func (c *t11Counter) incAtomic() {
+	c.mu.Lock()
+	defer c.mu.Unlock()
+	if c.n < c.limit {
+		c.n++
+	}
+}
+
+func (c *t11Counter) incSplit() {
+	c.mu.Lock()
+	ok := c.n < c.limit
+	c.mu.Unlock()
+	if ok {
+		c.mu.Lock()
+		c.n++
+		c.mu.Unlock()
+	}
+}
+
+func T11() {
+	c := &t11Counter{limit: 1}
+	vrt.Interfere(func() { c.incAtomic() })
+	c.incAtomic()
+	vrt.Assume(vrt.InterfererRan())
+	vrt.Assert("limit", c.n <= c.limit)
+	vrt.Reach("end")
+}
+
+func T12() {
+	c := &t11Counter{limit: 1}
+	vrt.Interfere(func() { c.incSplit() })
+	c.incSplit()
+	vrt.Assume(vrt.InterfererRan())
+	vrt.Assert("limit", c.n <= c.limit)
 	vrt.Reach("end")
 }
